@@ -229,27 +229,35 @@ theorem msL_normFL_atoms (f : UInt64 → UInt64) : ∀ xs : List PyVal, xs.all P
     simp only [List.all_cons, Bool.and_eq_true] at h
     simp [PyVal.normFL, makeSerializableL, ms_normF_atom f x h.1, msL_normFL_atoms f xs h.2]
 
-theorem normFL_list3 (f : UInt64 → UInt64) (a b c : PyVal) :
-    PyVal.normFL f [a, b, c] = [PyVal.normF f a, PyVal.normF f b, PyVal.normF f c] := rfl
-
 mutual
 theorem ms_normF (f : UInt64 → UInt64) : ∀ v : PyVal, v.WF f = true →
     makeSerializable (PyVal.normF f v) = PyVal.normF f (makeSerializable v)
-  | .none, _ | .bool _, _ | .int _, _ | .float _, _ | .str _, _ | .npInt _, _ | .npFloat _, _ => rfl
+  | .none, _ | .bool _, _ | .int _, _ | .float _, _ | .str _, _ | .npInt _, _ | .npFloat _, _ | .npBool _, _ => rfl
   | .arr dt sh d, _ => by
     simp [makeSerializable, PyVal.normF, PyVal.normFK, normF_nest, normFL_ints]
   | .slice a b c, h => by
     simp only [PyVal.WF, Bool.and_eq_true] at h
-    simp [makeSerializable, PyVal.normF, PyVal.normFK, normFL_list3, normF_noneToStr f _ h.1.1,
-      normF_noneToStr f _ h.1.2, normF_noneToStr f _ h.2]
+    simp [makeSerializable, PyVal.normF, PyVal.normFK, PyVal.normFL, ms_normF f a h.1.1, ms_normF f b h.1.2,
+      ms_normF f c h.2]
   | .dict kvs, h => by
     simp only [PyVal.WF, Bool.and_eq_true] at h
     simp [makeSerializable, PyVal.normF, PyVal.normFK, msK_normFK f kvs h.1]
   | .set xs, h => by
     simp only [PyVal.WF, Bool.and_eq_true] at h
     simp [makeSerializable, PyVal.normF, PyVal.normFK, msL_normFL_atoms f xs h.1]
-  | .list xs, _ => by simp [makeSerializable, PyVal.normF]
-  | .npBool _, h | .tuple _, h | .opaque _, h => by simp [PyVal.WF] at h
+  | .list xs, h => by
+    simp only [PyVal.WF] at h
+    simp [makeSerializable, PyVal.normF, msL_normFL f xs h]
+  | .tuple xs, h => by
+    simp only [PyVal.WF] at h
+    simp [makeSerializable, PyVal.normF, msL_normFL f xs h]
+  | .opaque _, h => by simp [PyVal.WF] at h
+theorem msL_normFL (f : UInt64 → UInt64) : ∀ xs : List PyVal, PyVal.WFL f xs = true →
+    makeSerializableL (PyVal.normFL f xs) = PyVal.normFL f (makeSerializableL xs)
+  | [], _ => rfl
+  | x :: xs, h => by
+    simp only [PyVal.WFL, Bool.and_eq_true] at h
+    simp [PyVal.normFL, makeSerializableL, ms_normF f x h.1, msL_normFL f xs h.2]
 theorem msK_normFK (f : UInt64 → UInt64) : ∀ kvs : List (String × PyVal), PyVal.WFK f kvs = true →
     makeSerializableK (PyVal.normFK f kvs) = PyVal.normFK f (makeSerializableK kvs)
   | [], _ => rfl
@@ -344,15 +352,13 @@ theorem readSelect_keyword (name : List Char) :
 /-! ### allocation ids -/
 
 mutual
-theorem copy_ids_ge : ∀ (v : LVal) (n : Nat), v.noList = true →
+theorem copy_ids_ge : ∀ (v : LVal) (n : Nat),
     n ≤ (v.copy n).2 ∧ ∀ i ∈ (v.copy n).1.ids, n ≤ i ∧ i < (v.copy n).2
-  | .atom _, n, _ => by simp [LVal.copy, LVal.ids]
-  | .nparr _ _ _ _, n, _ => by simp [LVal.copy, LVal.ids]
-  | .set _ _, n, _ => by simp [LVal.copy, LVal.ids]
-  | .list _ _, n, h => by simp [LVal.noList] at h
-  | .dict _ kvs, n, h => by
-    simp only [LVal.noList] at h
-    have ih := copyK_ids_ge kvs (n + 1) h
+  | .atom _, n => by simp [LVal.copy, LVal.ids]
+  | .nparr _ _ _ _, n => by simp [LVal.copy, LVal.ids]
+  | .set _ _, n => by simp [LVal.copy, LVal.ids]
+  | .list _ xs, n => by
+    have ih := copyL_ids_ge xs (n + 1)
     simp only [LVal.copy, LVal.ids, List.mem_cons]
     refine ⟨by omega, ?_⟩
     intro i hi
@@ -360,13 +366,35 @@ theorem copy_ids_ge : ∀ (v : LVal) (n : Nat), v.noList = true →
     · omega
     · have := ih.2 i hi
       omega
-theorem copyK_ids_ge : ∀ (kvs : List (String × LVal)) (n : Nat), LVal.noListK kvs = true →
+  | .dict _ kvs, n => by
+    have ih := copyK_ids_ge kvs (n + 1)
+    simp only [LVal.copy, LVal.ids, List.mem_cons]
+    refine ⟨by omega, ?_⟩
+    intro i hi
+    rcases hi with rfl | hi
+    · omega
+    · have := ih.2 i hi
+      omega
+theorem copyL_ids_ge : ∀ (xs : List LVal) (n : Nat),
+    n ≤ (LVal.copyL xs n).2 ∧ ∀ i ∈ LVal.idsL (LVal.copyL xs n).1, n ≤ i ∧ i < (LVal.copyL xs n).2
+  | [], n => by simp [LVal.copyL, LVal.idsL]
+  | v :: r, n => by
+    have h1 := copy_ids_ge v n
+    have h2 := copyL_ids_ge r (v.copy n).2
+    simp only [LVal.copyL, LVal.idsL, List.mem_append]
+    refine ⟨by omega, ?_⟩
+    intro i hi
+    rcases hi with hi | hi
+    · have := h1.2 i hi
+      omega
+    · have := h2.2 i hi
+      omega
+theorem copyK_ids_ge : ∀ (kvs : List (String × LVal)) (n : Nat),
     n ≤ (LVal.copyK kvs n).2 ∧ ∀ i ∈ LVal.idsK (LVal.copyK kvs n).1, n ≤ i ∧ i < (LVal.copyK kvs n).2
-  | [], n, _ => by simp [LVal.copyK, LVal.idsK]
-  | (k, v) :: r, n, h => by
-    simp only [LVal.noListK, Bool.and_eq_true] at h
-    have h1 := copy_ids_ge v n h.1
-    have h2 := copyK_ids_ge r (v.copy n).2 h.2
+  | [], n => by simp [LVal.copyK, LVal.idsK]
+  | (k, v) :: r, n => by
+    have h1 := copy_ids_ge v n
+    have h2 := copyK_ids_ge r (v.copy n).2
     simp only [LVal.copyK, LVal.idsK, List.mem_append]
     refine ⟨by omega, ?_⟩
     intro i hi
@@ -378,9 +406,6 @@ theorem copyK_ids_ge : ∀ (kvs : List (String × LVal)) (n : Nat), LVal.noListK
 end
 
 theorem mapF_id (s : Scalar) : s.mapF id = s := by cases s <;> rfl
-
-theorem normF_id_plain (v : PyVal) (h : v.plain = true) : PyVal.normF id v = v :=
-  normF_id_jsonLike v (jsonLike_of_plain v h)
 
 mutual
 /-- The labelled copy is the value-level state round trip (ties the allocation model to `Serial`). -/
@@ -394,13 +419,18 @@ theorem copy_erase : ∀ (v : LVal) (n : Nat), v.erase.WF id = true → (v.copy 
   | .set _ xs, _, h => by
     simp only [LVal.erase, PyVal.WF, Bool.and_eq_true] at h
     simp [LVal.copy, LVal.erase, PyVal.normF, dedupPy_of_nodup _ h.2]
-  | .list _ xs, _, h => by
+  | .list _ xs, n, h => by
     simp only [LVal.erase, PyVal.WF] at h
-    have := normF_id_plain (.list (LVal.eraseL xs)) (by simpa [PyVal.plain] using h)
-    simp [LVal.copy, LVal.erase, this]
+    simp [LVal.copy, LVal.erase, PyVal.normF, copyL_erase xs (n + 1) h]
   | .dict _ kvs, n, h => by
     simp only [LVal.erase, PyVal.WF, Bool.and_eq_true] at h
     simp [LVal.copy, LVal.erase, PyVal.normF, copyK_erase kvs (n + 1) h.1]
+theorem copyL_erase : ∀ (xs : List LVal) (n : Nat), PyVal.WFL id (LVal.eraseL xs) = true →
+    LVal.eraseL (LVal.copyL xs n).1 = PyVal.normFL id (LVal.eraseL xs)
+  | [], _, _ => rfl
+  | v :: r, n, h => by
+    simp only [LVal.eraseL, PyVal.WFL, Bool.and_eq_true] at h
+    simp [LVal.copyL, LVal.eraseL, PyVal.normFL, copy_erase v n h.1, copyL_erase r (v.copy n).2 h.2]
 theorem copyK_erase : ∀ (kvs : List (String × LVal)) (n : Nat), PyVal.WFK id (LVal.eraseK kvs) = true →
     LVal.eraseK (LVal.copyK kvs n).1 = PyVal.normFK id (LVal.eraseK kvs)
   | [], _, _ => rfl
